@@ -1,5 +1,6 @@
 import PlasVerif.Driver.Util
 import PlasVerif.Spec.Split
+import PlasVerif.Model.RenderNames
 namespace PlasVerif.Driver.C13
 open PlasVerif.Driver PlasVerif.Model.Render PlasVerif.Spec.Split
 
@@ -34,14 +35,14 @@ def tokStr : Tok → String
   | .txt m => s!"t{m}" | .op t => s!"o{t}" | .cl t => s!"c{t}" | .mark t => s!"m{t}"
   | .lop t => s!"L{t}" | .lcl t => s!"l{t}" | .fop t => s!"F{t}" | .fcl t => s!"f{t}"
 
-def insertFile (f : File) : List File → List File
+def insertFile (f : File String) : List (File String) → List (File String)
   | [] => [f]
   | g :: gs => if f.1 < g.1 then f :: g :: gs else if f.1 == g.1 then f :: gs else g :: insertFile f gs
 
 /-- files as found on disk afterwards: a later write to the same name replaces the earlier one; sorted by name -/
-def onDisk (fs : List File) : List File := fs.foldl (fun acc f => insertFile f acc) []
+def onDisk (fs : List (File String)) : List (File String) := fs.foldl (fun acc f => insertFile f acc) []
 
-def filesStr (fs : List File) : String :=
+def filesStr (fs : List (File String)) : String :=
   ";".intercalate ((onDisk fs).map fun f => s!"{f.1}={joinSp (f.2.map tokStr)}")
 
 def o2s : Option String → String
@@ -71,6 +72,24 @@ def isDocTree : Tree → Bool
   | .text _ => false
   | .elem a _ => a.level == DOCUMENT_LEVEL
 
+/-- the split stream's configuration: default forbidden characters, substitute `-`, extension `.html` -/
+def realCfg : PlasVerif.Model.Filenames.Config :=
+  { bad := PlasVerif.Model.RenderNames.strOf ": #$%^&*!~`\"'=?/{}[]()|<>;\\,.",
+    sub := PlasVerif.Model.RenderNames.strOf "-", ext := PlasVerif.Model.RenderNames.strOf ".html" }
+
+def strStr (s : List Nat) : String := ",".intercalate (s.map toString)
+
+/-- the same rendering with the model of `Filenames` (C15) as the name supply: the real names in issue order
+    (`-` = template outside the C15 model) -/
+def realNames (split : Int) (tmpl : List Char) (tops : List Tree) : String :=
+  match PlasVerif.Model.RenderNames.newFilename tmpl "job" with
+  | none => "-"
+  | some st =>
+    match run (PlasVerif.Model.RenderNames.filenamesGen realCfg) st
+        ((if documentNode.level > effLevel split tmpl then [] else [req documentNode]) ++ reqsL (effLevel split tmpl) tops) with
+    | .error _ => "err:ValueError"
+    | .ok (ns, _) => "names " ++ joinSp (ns.map strStr)
+
 def handle : List String → String
   | "split" :: gen :: split :: tmpl :: n :: ws =>
     match split.toInt?, template? tmpl, n.toNat? with
@@ -84,15 +103,14 @@ def handle : List String → String
           | .error .valueError => s!"err:ValueError"
           | .ok fs => s!"ok {filesStr fs} # {joinSp ((seenAll rq).map reqStr)}"
         -- the property's prescription, when the document is in its domain
-        let docs := tops.filter isDocTree
-        let inDomain := die.isNone && lvl < 100 && wfL lvl false docs && docs.length == 1
-            && tops.all (fun t => isDocTree t || (reqs lvl t).isEmpty) && docs.all (fun t => !(units lvl t).isEmpty)
+        let inDomain := die.isNone && lvl < 100 && wfL lvl tops && tops.all (fun t => isDocRoot t || (units lvl t).isEmpty)
+            && (decide (DOCUMENT_LEVEL ≤ lvl) || footFreeL lvl false tops)
         let spec := if inDomain then
-            let us := unitsL lvl docs
+            let us := unitsL lvl tops
             ";".intercalate ((List.range us.length).zip us |>.map fun (k, u) =>
               s!"f{k}=L{u.attrs.tag}:{natsStr u.body}|{natsStr u.foot}")
           else "-"
-        s!"{model}\t{spec}\t{lvl}"
+        s!"{model}\t{spec}\t{lvl}\t{realNames split tmpl tops}"
       | _ => "bad-op"
     | _, _, _ => "bad-op"
   | _ => "bad-op"
